@@ -38,8 +38,9 @@ func run(c *core.Ctx) {
 	// no collection while the replay runs (unless the heap passes 16 GiB).
 	defer debug.SetGCPercent(debug.SetGCPercent(-1))
 	defer debug.SetMemoryLimit(debug.SetMemoryLimit(16 << 30))
-	c.Assume("timing: a call that the model says returns at once, or on the cancellation / deadline of its context, is classed \"fast\" if it returns before 90% of ClientConfig.Timeout (0.7 s for a live context, 2.5 s otherwise; the context is cancelled 0.1 s into the call), \"timeout\" otherwise; what the peer must see (EOF of a closed socket) is waited for up to 2 s, what must not happen is looked for during 30-60 ms; a difference is re-run once with 3 s / 12 s / 10 s / 200 ms before it is reported")
+	c.Assume("timing: a call that the model says returns at once, or on the cancellation / deadline of its context, is classed \"fast\" if it returns before 90% of ClientConfig.Timeout (0.7 s for a live context, 2.5 s otherwise; the context is cancelled 0.1 s into the call), \"timeout\" otherwise; what the peer must see (EOF of a closed socket) is waited for up to 2 s, what must not happen is looked for during 30-60 ms; a difference is re-run with 3 s / 12 s / 10 s / 200 ms and then with 30 s / 60 s / 40 s / 500 ms, and reported only if both re-runs show it at the same step")
 	c.Assume("the scripted peer is a loopback port whose listening socket is replaced between calls: bound but not listening (refused), listen backlog 0 with a full accept queue (the dial stalls), accepting and then FIN / silent / non-CEDAR bytes / cedar's own server package with a matching policy (NEVER or CLAIMTOBE+AES) / with a policy the client cannot meet; it half-closes instead of closing so that it can see the client's EOF")
+	c.Assume("a context is cancelled / given a short deadline only under a call the model says blocks (stalled dial, silent peer during the CCB exchange or the security handshake); under a call that returns by itself the context is cancelled right after the return (a caller's defer cancel()) and the deadline is far away; the garbage collector is off during the replay (a finalizer would close the sockets the check wants to see leaked)")
 	c.Assume("CCB route: only the failing environments (no broker is scripted here; the CCB exchange itself is C14/G01); ConnectAndAuthenticate's retry after a failed session resumption is not exercised")
 	c.Assume("server part: handlers are raw commands (no handshake) except the half-sent DC_AUTHENTICATE; the script waits for the server to be at rest before each environment step except a cancellation fired right after a dial or a command")
 
